@@ -11,7 +11,7 @@ TB_COMMON = ("Trusted: Lean 4.33 kernel + Mathlib v4.33, axioms propext/Classica
 CLAIMED = {
     "C14": dict(
         technique="Lean 4 theorem over every ordered field about the decision function re-translated from _draw_decision's AST on each run; RNG-protocol model + correspondence",
-        text="Proof: drawDecision_table / drawDecision_clauses hold for all step-size quadruples and ratio settings over any linearly ordered field, for the Lean function regenerated from the Python AST on this run; fairness/reproducibility proved on an RNG-protocol model (benchmarks_same_stimulus) whose hypothesis (the stimulus generator's RNG is re-seeded) is read off the source and whose event trace is compared with the real check_stiffness through a PyGSL stand-in.",
+        text="Proof: drawDecision_table / drawDecision_clauses hold for all step-size quadruples and ratio settings over any linearly ordered field, for the Lean function regenerated from the Python AST on this run; fairness/reproducibility proved on an RNG-protocol model (benchmarks_same_stimulus) whose hypothesis (the stimulus generator's RNG is re-seeded) is read off the source and whose event trace is compared with the real check_stiffness through a PyGSL stand-in; end to end, check_stiffness()'s answer is compared with the regenerated decision function applied to the step sizes integrate_ode actually returned (scripted stepper dictating sub-epsilon steps), and the stimulus generated for a fixed seed is compared across fresh interpreters with different PYTHONHASHSEED.",
         note=TB_COMMON + "Measured step sizes come from a stand-in for pygsl.odeiv; floating-point rounding of the two products is outside the theorem (the Float instance of the same definition is compared bit-for-bit with the code).",
         ref="DESIGN.md 4 C14"),
 }
@@ -35,7 +35,7 @@ CLAIMED["C03"] = dict(
 
 CLAIMED["C13"] = dict(
     technique="Lean 4 invariant proofs about a model of the integrate_ode event loop with an arbitrary stepper (contract: progresses, never overshoots); scripted-stepper correspondence with the real loop",
-    text="Proof (PARTIAL - event/bookkeeping logic only): for every stepper satisfying GoodApply, every strictly increasing positive spike list, every max_step>0 and sim_time: the log starts at the initial values, times strictly increase and end exactly at sim_time, in precise mode every spike before the end is applied exactly once at its own time, in aliased mode exactly once at a boundary tau with tau-max_step < t_spike <= tau, and after every step out-of-bound variables equal their initial value. Tie: the real integrate_ode(debug=True) runs unmodified against a scripted pygsl stand-in whose stepping function is shared bit-for-bit with the Lean driver; t_log / y_log / crossed compared exactly.",
+    text="Proof (PARTIAL - event/bookkeeping logic only): for every stepper satisfying GoodApply, every strictly increasing positive spike list, every max_step>0 and sim_time: the log starts at the initial values, times strictly increase and end exactly at sim_time, in precise mode every spike before the end is applied exactly once at its own time, in aliased mode exactly once at a boundary tau with tau-max_step < t_spike <= tau, after every step out-of-bound variables equal their initial value, and (analytic_seen_exact, a corollary of C12's history-independence over the operation pattern integrate_ode performs on its analytic integrator) every analytic value the numeric part sees is the exact solution whatever the stepper evaluates. Tie: the operation pattern is recorded from real runs and matched against the model's; a run after an overridden run on the same object is compared with a fresh object; the real integrate_ode(debug=True) runs unmodified against a scripted pygsl stand-in whose stepping function is shared bit-for-bit with the Lean driver; t_log / y_log / crossed compared exactly.",
     note=TB_COMMON + "NOT covered by any model: accuracy between events, the real GSL steppers, floating point, the values the analytic integrator feeds into step() (C12 covers the analytic integrator itself). These are observed through a numerical stand-in only.",
     ref="DESIGN.md 4 C13")
 CLAIMED["C10"] = dict(
@@ -51,13 +51,13 @@ CLAIMED["C02"] = dict(
     ref="DESIGN.md 4 C02")
 CLAIMED["C04"] = dict(
     technique="Lean 4 theorems: completeness of the term classification on canonical linear terms + greatest-fixed-point characterisation of the verdict (order-independent); spelling sweep against an independent differential criterion",
-    text="Proof: classify_complete_lin/const and canonical_linear_no_nonlin (a right-hand side whose expanded terms are k*x or parameter-only has an empty nonlinear part, for any number and order of terms), parameterSymbols_spec, and from the graph model tractable_recognised / propagate_greatest (every dependency-closed set of eligible variables is solved analytically) and verdict_perm_invariant. Tie/search: 6-10 algebraically equal spellings and entry orders per ground truth; the code's analytic set must contain the independently computed expected set and must not vary across spellings; split and verdict correspondences as in C02/C03.",
-    note=TB_COMMON + "Independence of the spelling rests on sympy's expand() producing a sum of monomial terms with like terms combined (contract, validated per case); the theorems start from the expanded form.",
+    text="Proof: classify_complete_lin/const and canonical_linear_no_nonlin (a right-hand side whose expanded terms are k*x or parameter-only has an empty nonlinear part, for any number and order of terms), parameterSymbols_spec, and from the graph model tractable_recognised / propagate_greatest (every dependency-closed set of eligible variables is solved analytically) and verdict_perm_invariant; for right-hand sides in the Laurent-polynomial grammar the dependence on the spelling is itself a theorem: C04b.linearCC_iff / spelling_invariant (the executable expand-and-collect verdict equals the semantic one on the denoted Laurent polynomial, hence any two spellings of the same polynomial get the same verdict) with den_ring_rules. Tie/search: the model's verdict on the user's own (unevaluated) spelling is compared with the toolbox's judgement of every polynomial entry (op poly-verdict); 6-10 algebraically equal spellings and entry orders per ground truth; the code's analytic set must contain the independently computed expected set and must not vary across spellings; split and verdict correspondences as in C02/C03.",
+    note=TB_COMMON + "Outside the Laurent-polynomial grammar (function applications, non-integer powers) independence of the spelling rests on sympy's expand() producing a sum of monomial terms with like terms combined (contract, validated per case by the split correspondence and the independent differential criterion).",
     ref="DESIGN.md 4 C04")
 
 CLAIMED["C01"] = dict(
     technique="Lean 4 / Mathlib theorems about exp(h*A) over the reals (identity, derivative, semigroup, uniqueness, component-wise exponential) tied to an executable model of the component cut and update-expression assembly; end-to-end differential oracle on returned dictionaries",
-    text="Proof: for every dimension n, every real A, b, every state and every step size (also negative): if the model's assembly succeeds with a zero-pattern that is sound for exp(hA), the assembled update map satisfies flow_identity, flow_deriv (d/dh = A u + b at the updated state), flow_semigroup and is THE solution operator (analytic_solver_exact, via affine_flow_unique); blocks_sound: exponentiating each connected component on its own (not necessarily adjacent) index set and scattering gives exactly exp(hA); sum_mirror_unsound records the pre-repair defect. Tie: components and assembled expressions (incl. guarded error paths) compared with the real get_connected_component_indices / generate_propagator_solver on values at random rational points with propagator symbols as independent indeterminates; direct oracle differentiates the returned propagator strings.",
+    text="Proof: for every dimension n, every real A, b, every state and every step size (also negative): if the model's assembly succeeds with a zero-pattern that is sound for exp(hA), the assembled update map satisfies flow_identity, flow_deriv (d/dh = A u + b at the updated state), flow_semigroup and is THE solution operator (analytic_solver_exact, via affine_flow_unique); blocks_sound: exponentiating each connected component on its own (not necessarily adjacent) index set and scattering gives exactly exp(hA), for any labelling passing the model's check - and ReachSpec.label_ok / prop_reach_iff show the model's own closure-based labelling always passes it and is exactly connectivity; sum_mirror_unsound records the pre-repair defect. Tie: components and assembled expressions (incl. guarded error paths) compared with the real get_connected_component_indices / generate_propagator_solver on values at random rational points with propagator symbols as independent indeterminates; direct oracle differentiates the returned propagator strings.",
     note=TB_COMMON + "SymPy's exp(Matrix) and simplify are contracts: entries are those of the true exponential and reported zeros are identically zero (checked end-to-end per case by the d/dh oracle at 40 digits). The get_sub_system extraction step is C02's subsystem_lossless plus C03's closure.",
     ref="DESIGN.md 4 C01")
 
